@@ -42,7 +42,8 @@ SPECS = {
         rule="generated Parallel/Map programs (nesting to the tier's depth, item arrays of length 0..bound, every "
              "MaxConcurrency 0..len+1, Task/Wait/Pass iterators) whose branches all succeed, run under a seeded "
              "schedule policy plus the complete set of completion-order permutations for fan-out <= 4 (slice marked "
-             "exhaustive); the terminal output must equal the reference model's (position i = branch/item i), the "
+             "exhaustive) and a slice in which the same Parallel/Map state is entered 2-3 times by a counting loop with a "
+             "different completion order in every pass; the terminal output must equal the reference model's (position i = branch/item i), the "
              "multiset of task requests must equal the model's (each item processed once), the fan-out state may exit "
              "only after all of its branches ended, and iterations in flight never exceed MaxConcurrency; distinct = "
              "distinct (scenario, interleaving) hashes"),
@@ -201,6 +202,10 @@ def make(prop, i, tier):
     cfg = E.swarm_config(rng, spec["policies"], ttls=(600, 3600), max_nodes=1)
     scn, models, skipped = E.gen_multi(rng, spec["families"], tier, spec["max_exec"], cfg, types=spec["types"],
                                        accept=spec["accept"])
+    if prop == "C09":
+        # what a machine's loggingConfiguration sends to the log (and redacts there) must not touch the stored history
+        from checks import c11
+        c11.add_logging(random.Random(seed ^ 0x109), scn, 0.3)
     return seed, scn, models, skipped
 
 
@@ -210,6 +215,8 @@ def run_one(item, extra):
         kind = item[0]
         if kind == "perm":
             return run_perm(prop, item[1])
+        if kind == "loop":
+            return run_loop(prop, item[1])
         if kind == "nested":
             from gen import corpus
             cfg = E.policy_cfg(item[2])
@@ -267,6 +274,51 @@ def perm_scenario(p):
                                                             "execution_ttl": 600}}
 
 
+def loop_scenario(i):
+    """The same Parallel/Map state entered several times in one execution (a counting loop around it), the branches of
+    every pass finishing in a different order: each entry is a join of its own."""
+    seed = common.run_seed(8000000 + i)
+    rng = random.Random(seed)
+    fn_arn = E.GM.FN_ARN
+    kind = rng.choice(["Parallel", "Map", "Map"])
+    k = rng.randint(2, 4)
+    passes = rng.choice([2, 2, 3])
+    delays = [0.0, 0.5, 1.0, 2.0, 3.0]
+    dm = {}
+    for n in range(passes):
+        for b in range(k):
+            dm[json.dumps({"b": b, "n": n}, sort_keys=True, separators=(",", ":"))] = rng.choice(delays)
+    script = {"w": [{"ok": {"op": rng.choice(["wrap", "tag"])}, "delay_map": dm}], "after": [{"ok": {"op": "echo"}}]}
+    if kind == "Parallel":
+        fan = {"Type": "Parallel", "ResultPath": "$.r", "Next": "Inc", "Branches": [
+            {"StartAt": "T%d" % b, "States": {"T%d" % b: {"Type": "Task", "Resource": fn_arn + "w",
+                                                          "Parameters": {"b": b, "n.$": "$.n"}, "End": True}}}
+            for b in range(k)]}
+    else:
+        fan = {"Type": "Map", "ItemsPath": "$.items", "ResultPath": "$.r", "Next": "Inc",
+               "ItemSelector": {"b.$": "$$.Map.Item.Value", "n.$": "$.n"},
+               "ItemProcessor": {"StartAt": "T", "States": {"T": {"Type": "Task", "Resource": fn_arn + "w", "End": True}}}}
+        if rng.random() < 0.6:
+            fan["MaxConcurrency"] = rng.randint(0, k + 1)
+    d = {"StartAt": "F", "States": {
+        "F": fan,
+        "Inc": {"Type": "Pass", "Parameters": {"n.$": "States.MathAdd($.n, 1)", "items.$": "$.items", "last.$": "$.r",
+                                                 "all.$": "States.Array($.all, $.r)"}, "Next": "More"},
+        "More": {"Type": "Choice", "Choices": [{"Variable": "$.n", "NumericLessThan": passes, "Next": "F"}], "Default": "A"},
+        "A": {"Type": "Task", "Resource": fn_arn + "after", "End": True}}}
+    cfg = E.policy_cfg(rng.choice(ALL_POLICIES))
+    cfg["execution_ttl"] = 600
+    scn = {"machines": {"m0": {"definition": d, "type": rng.choice(["STANDARD", "EXPRESS"]), "family": "loop"}},
+           "executions": [{"machine": "m0", "input": {"n": 0, "items": list(range(k)), "all": []}, "name": "e0"}],
+           "script": script, "functions": sorted(script.keys()), "config": cfg}
+    return seed, scn
+
+
+def run_loop(prop, i):
+    seed, scn = loop_scenario(i)
+    return check(prop, scn, seed, extra_probes={"fan-out-re-entered-in-a-loop": 1})
+
+
 def run_perm(prop, p):
     scn = perm_scenario(p)
     r = check(prop, scn, 7, extra_probes={"permutation-slice": 1})
@@ -292,7 +344,7 @@ def main_for(prop, argv, extra_items=()):
     extra_cov = {}
     if prop == "C05":
         pi = perm_items(4)
-        items = pi + items
+        items = pi + [("loop", j) for j in range(200 if tier == "quick" else 8000)] + items
         extra_cov["permutation_slice"] = {"exhaustive": True, "cases": len(pi),
                                           "what": "every completion order of k<=4 branches/items x Parallel and Map "
                                                   "with every MaxConcurrency 0..k+1"}
